@@ -8,7 +8,10 @@ import IcingaProofs.C10.Lemmas
 namespace Icinga.C10
 
 /-- A run-once, active object called "h1". -/
-def exCfg : ObjCfg := ⟨[0x68, 0x31], true, true⟩
+def exCfg : ObjCfg := { name := [0x68, 0x31], runOnce := true, active := true }
+
+/-- An object state without notification / check bookkeeping. -/
+def ob (p : Bool) (pc rc : Nat) : Obj := { paused := p, pauses := pc, resumes := rc }
 
 /-- The zone's members reach `UpdateObjectAuthority` in the iteration order of a `std::set<Endpoint::Ptr>`
     (by address, different on every node): the verdict does not depend on that order. -/
@@ -135,7 +138,7 @@ theorem cold_start_no_change (ms : List Name) (self : Name) (conn : Name → Boo
 
 example : authority (some [[0x61], [0x62]]) [0x61] (fun _ => false) 1000 1029 [0x68] = .keep :=
   (cold_start_no_change _ _ _ _ _ _ (by decide) (by decide) (by decide) (by intros; rfl) (Or.inr (by decide))
-    ⟨[], true, true⟩ ⟨true, 0, 0⟩).1
+    { name := [], runOnce := true, active := true } (ob true 0 0)).1
 
 /-- **no_zone_all_active.**  Without a local zone every run decides "authority" for every name, and after one run
     over any set of objects every active run-once object is unpaused. -/
@@ -158,7 +161,7 @@ theorem no_zone_all_active (self : Name) (conn : List Name) (start now : Int) (c
     rw [← ho, setAuthority_paused]; rfl
 
 example : (Node.update [exCfg] { zone := none, self := [0x61], conn := [], start := 0, objs := [fresh exCfg] } 7).objs
-    = [⟨false, 0, 1⟩] := by decide
+    = [(ob false 0 1)] := by decide
 
 /-- A zone of one's own (one member) behaves the same: always "authority", never a cold start. -/
 theorem single_member_all_active (self : Name) (conn : Name → Bool) (start now : Int) (name : Name) :
@@ -208,7 +211,52 @@ theorem pause_resume_once_per_change (ds : List Bool) : ∀ (o : Obj),
         simp [setAuthority_paused]
       | cons d' ds' => exact h3 a (by simpa [List.getLast?_cons_cons] using ha)
 
-example : ([true, true, false, false, true].foldl setAuthority ⟨true, 0, 0⟩) = ⟨false, 1, 2⟩ := by decide
+example : ([true, true, false, false, true].foldl setAuthority (ob true 0 0)) = (ob false 1 2) := by decide
+
+/-- **overlapping_runs_are_one.**  What the `ObjectLock` in `SetAuthority` (configobject.cpp:446, test *inside* the lock)
+    guarantees for two overlapping authority runs that decide the same value: the second call finds nothing to do, so
+    the pair pauses / resumes the object exactly as often as one call (the harness checks this against two real
+    threads blocked on the object's lock). -/
+theorem overlapping_runs_are_one (o : Obj) (v : Bool) : setAuthority (setAuthority o v) v = setAuthority o v := by
+  unfold setAuthority
+  cases v <;> cases hp : o.paused <;> simp [hp]
+
+example : setAuthority (setAuthority (ob true 0 0) true) true = ob false 0 1 := by decide
+
+/-- **paused_node_is_silent** ("a paused endpoint neither executes checks nor sends notifications for that object").
+    For an object that is paused on a node: a requested notification is not sent (it is skipped, or stashed while no
+    authority run has completed yet), a due check is not executed, and on a node with a local endpoint the
+    notification timer sends nothing for it either — whether or not an authority run has completed (`u`). -/
+theorem paused_node_is_silent (u : Bool) (c : ObjCfg) (o : Obj) (hp : o.paused = true) :
+    (requestObj u c o).execs = o.execs ∧ (dueObj c o).execs = o.execs ∧
+    (ntimerObj u true c o).execs = o.execs :=
+  ⟨(requestObj_props u c o).2.2.2.1 hp, (dueObj_props c o).2.2.2.1 hp, (ntimerObj_props u true c o).2.2.2.1 rfl hp⟩
+
+/-- In the cold-start window (paused, no authority run completed yet) a requested notification is stashed and the
+    notification timer leaves the stash alone and sends nothing: it waits for the authority decision. -/
+theorem cold_start_notification_waits (c : ObjCfg) (o : Obj) (hk : c.kind = .notification) (hp : o.paused = true) :
+    requestObj false c o = { o with stash := o.stash + 1 } ∧ ntimerObj false true c o = o := by
+  unfold requestObj ntimerObj
+  cases ha : c.active <;> simp [hk, hp]
+
+example : ntimerObj false true { name := [0x6e], runOnce := true, active := true, kind := .notification }
+    { paused := true, pauses := 0, resumes := 0, execs := 0, stash := 2 }
+    = { paused := true, pauses := 0, resumes := 0, execs := 0, stash := 2 } := by decide
+
+/-- **exactly_one_does_the_work.**  Two members that are settled with each other (`a.paused = !b.paused`, what
+    `exactly_one` gives): a check of an active checkable that becomes due on both is executed by exactly one of them,
+    and a notification requested on both (authority known, nothing stashed) is sent by exactly one of them. -/
+theorem exactly_one_does_the_work (c : ObjCfg) (a b : Obj) (hab : a.paused = !b.paused) :
+    (c.kind = .checkable → c.active = true →
+      (dueObj c a).execs + (dueObj c b).execs = a.execs + b.execs + 1) ∧
+    (c.kind = .notification → a.stash = 0 → b.stash = 0 →
+      (requestObj true c a).execs + (requestObj true c b).execs = a.execs + b.execs + 1) := by
+  unfold dueObj requestObj
+  constructor
+  · intro hk ha
+    cases hb : b.paused <;> simp [hk, ha, hab, hb] <;> omega
+  · intro hk hsa hsb
+    cases hb : b.paused <;> simp [hk, hab, hb, hsa, hsb] <;> omega
 
 /-- The node-level run is the per-object verdict applied to every object (the loop of :56-81). -/
 theorem node_update_pointwise (cfgs : List ObjCfg) (n : Node) (now : Int) (i : Nat) (c : ObjCfg) (o : Obj)
@@ -232,20 +280,43 @@ theorem model_trace_meets_spec (l : Layout) (nA nB : Name) (hne : nA ≠ nB) (c 
 example :
     (trace .pair [0x61] [0x62] exCfg (initPair exCfg)
       [.boot .A 1000, .boot .B 1000, .link .A true, .link .B true, .upd .A 1001, .upd .B 1001]).getLast?
-      = some (.upd .B 1001, ⟨true, 0, 0⟩, ⟨false, 0, 1⟩) := by decide
+      = some (.upd .B 1001, (ob true 0 0), (ob false 0 1)) := by decide
 
 /-- The specification is not vacuous: it rejects a trace in which both members end up active. -/
 example :
     specTrace .pair exCfg (specInit exCfg)
-      [(.boot .A 1000, ⟨true, 0, 0⟩, ⟨true, 0, 0⟩), (.boot .B 1000, ⟨true, 0, 0⟩, ⟨true, 0, 0⟩),
-       (.link .A true, ⟨true, 0, 0⟩, ⟨true, 0, 0⟩), (.link .B true, ⟨true, 0, 0⟩, ⟨true, 0, 0⟩),
-       (.upd .A 1001, ⟨false, 0, 1⟩, ⟨true, 0, 0⟩), (.upd .B 1001, ⟨false, 0, 1⟩, ⟨false, 0, 1⟩)]
+      [(.boot .A 1000, (ob true 0 0), (ob true 0 0)), (.boot .B 1000, (ob true 0 0), (ob true 0 0)),
+       (.link .A true, (ob true 0 0), (ob true 0 0)), (.link .B true, (ob true 0 0), (ob true 0 0)),
+       (.upd .A 1001, (ob false 0 1), (ob true 0 0)), (.upd .B 1001, (ob false 0 1), (ob false 0 1))]
       = some .exactlyOne := by decide
 
 /-- … and one in which `Resume()` ran twice for one change. -/
 example :
     specTrace .noZone exCfg (specInit exCfg)
-      [(.upd .A 5, ⟨false, 0, 2⟩, ⟨true, 0, 0⟩)] = some .oncePerChange := by decide
+      [(.upd .A 5, (ob false 0 2), (ob true 0 0))] = some .oncePerChange := by decide
+
+/-- … one in which a node sends a notification for an object that is paused on it (cold start, nothing decided yet) … -/
+example :
+    specTrace .pair { name := [0x6e], runOnce := true, active := true, kind := .notification }
+      (specInit { name := [0x6e], runOnce := true, active := true, kind := .notification })
+      [(.boot .A 1000, ob true 0 0, ob true 0 0),
+       (.request .A, { paused := true, pauses := 0, resumes := 0, execs := 0, stash := 1 }, ob true 0 0),
+       (.ntimer .A, { paused := true, pauses := 0, resumes := 0, execs := 1, stash := 0 }, ob true 0 0)]
+      = some .pausedNodeIsSilent := by decide
+
+/-- … and one in which the active node does not run a due check. -/
+example :
+    specTrace .noZone { name := [0x68], runOnce := true, active := true, kind := .checkable }
+      (specInit { name := [0x68], runOnce := true, active := true, kind := .checkable })
+      [(.upd .A 5, ob false 0 1, ob true 0 0), (.due .A, ob false 0 1, ob true 0 0)]
+      = some .dueCheckRuns := by decide
+
+/-- The model's own trace through the cold-start stash: requested while undecided, delivered once alone after the grace period. -/
+example :
+    (trace .pair [0x61] [0x62] { name := [0x6e], runOnce := true, active := true, kind := .notification }
+      (initPair { name := [0x6e], runOnce := true, active := true, kind := .notification })
+      [.boot .A 1000, .request .A, .ntimer .A, .upd .A 1031, .ntimer .A]).getLast?
+      = some (.ntimer .A, { paused := false, pauses := 0, resumes := 1, execs := 1, stash := 0 }, ob true 0 0) := by decide
 
 /-- The hash: sign extension of bytes ≥ 0x80 and the 64-bit wrap-around, on concrete values that the harness also
     checks against `Utility::SDBM`. -/
